@@ -1,2 +1,3 @@
 pub mod kv;
 pub mod prefix;
+pub mod addr;
